@@ -5,6 +5,7 @@ import (
 	"fmt"
 	"hash/fnv"
 	"reflect"
+	"sort"
 	"strings"
 )
 
@@ -700,12 +701,20 @@ func (h *SexpHash) FillHashFromShadow(env *Zlisp, src interface{}) error {
 	for i, det := range h.DetOrder {
 		_ = i
 		//Q("\n looking at det for %s; %v-th entry in h.DetOrder\n", det.FieldJsonTag, i)
-		goField := vaSrc.Field(det.FieldNum)
+		// the field may live inside embedded structs: follow the same path SexpToGoStructs uses.
+		goField := vaSrc
+		for _, p := range det.EmbedPath {
+			goField = goField.Field(p.ChildFieldNum)
+		}
 		val, err := fillHashHelper(goField.Interface(), 0, env, false)
 		if err != nil {
 			//Q("got err='%s' back from fillHashhelper", err)
 			return fmt.Errorf("error on GoToSexp for field '%s': '%s'",
 				det.FieldJsonTag, err)
+		}
+		if det.StructField.Anonymous && val == SexpNull {
+			// embedded struct without a record type of its own: its fields follow under their own keys.
+			continue
 		}
 		//Q("got err==nil back from fillHashhelper; key=%#v, val=%#v", det.FieldJsonTag, val)
 		key := env.MakeSymbol(det.FieldJsonTag)
@@ -721,6 +730,13 @@ func (h *SexpHash) FillHashFromShadow(env *Zlisp, src interface{}) error {
 // for all Go structs
 func fillHashHelper(r interface{}, depth int, env *Zlisp, preferSym bool) (Sexp, error) {
 	//Q("fillHashHelper() at depth %d, decoded type is %T\n", depth, r)
+
+	if r == nil {
+		return SexpNull, nil
+	}
+	if rv := reflect.ValueOf(r); rv.Kind() == reflect.Ptr && rv.IsNil() {
+		return SexpNull, nil
+	}
 
 	// check for one of our registered structs
 
@@ -846,8 +862,71 @@ func fillHashHelper(r interface{}, depth int, env *Zlisp, preferSym bool) (Sexp,
 
 	default:
 		//Q("unknown type in type switch, val = %#v.  type = %T.\n", val, val)
+		return fillHashByKind(reflect.ValueOf(r), depth, env, preferSym)
 	}
+}
 
+// fillHashByKind converts the Go values that have no case of their
+// own in fillHashHelper, going by their reflect.Kind.
+func fillHashByKind(v reflect.Value, depth int, env *Zlisp, preferSym bool) (Sexp, error) {
+	switch v.Kind() {
+	case reflect.Int, reflect.Int8, reflect.Int16, reflect.Int32, reflect.Int64:
+		return &SexpInt{Val: v.Int()}, nil
+	case reflect.Uint, reflect.Uint8, reflect.Uint16, reflect.Uint32, reflect.Uint64:
+		return &SexpUint64{Val: v.Uint()}, nil
+	case reflect.Float32, reflect.Float64:
+		return &SexpFloat{Val: v.Float()}, nil
+	case reflect.String:
+		return &SexpStr{S: v.String()}, nil
+	case reflect.Bool:
+		return &SexpBool{Val: v.Bool()}, nil
+	case reflect.Slice, reflect.Array:
+		if v.Kind() == reflect.Slice && v.IsNil() {
+			return SexpNull, nil
+		}
+		slice := []Sexp{}
+		for i := 0; i < v.Len(); i++ {
+			sx2, err := fillHashHelper(v.Index(i).Interface(), depth+1, env, preferSym)
+			if err != nil {
+				return SexpNull, err
+			}
+			slice = append(slice, sx2)
+		}
+		return &SexpArray{Val: slice, Env: env}, nil
+	case reflect.Map:
+		if v.IsNil() {
+			return SexpNull, nil
+		}
+		keys := v.MapKeys()
+		sort.Slice(keys, func(i, j int) bool {
+			return fmt.Sprint(keys[i].Interface()) < fmt.Sprint(keys[j].Interface())
+		})
+		pairs := make([]Sexp, 0, 2*len(keys))
+		for _, k := range keys {
+			var key Sexp
+			var err error
+			if k.Kind() == reflect.String {
+				key = env.MakeSymbol(k.String())
+			} else if key, err = fillHashHelper(k.Interface(), depth+1, env, preferSym); err != nil {
+				return SexpNull, err
+			}
+			val, err := fillHashHelper(v.MapIndex(k).Interface(), depth+1, env, preferSym)
+			if err != nil {
+				return SexpNull, err
+			}
+			pairs = append(pairs, key, val)
+		}
+		return MakeHash(pairs, "hash", env)
+	case reflect.Struct:
+		// a struct held by value: a record when a pointer to it is a registered type.
+		p := reflect.New(v.Type())
+		p.Elem().Set(v)
+		for _, factory := range GoStructRegistry.Registry {
+			if factory.hasShadowStruct && factory.TypeCache == p.Type() {
+				return fillHashHelper(p.Interface(), depth, env, preferSym)
+			}
+		}
+	}
 	return SexpNull, nil
 }
 
